@@ -8,7 +8,7 @@
    every step t of its trace, on the model of the REPAIRED code (FIXLOG.md:
    7baf630 c9f204c d6f86b5 e01fd08 ec7166b 8b460ec c6ea1f8 handlers/dhcp4_spoofer, 94e2701 AppendOptions). *)
 From PV Require Import Base.Prelude Base.Text Model.DHCP Model.DHCPShow Spec.DHCP Spec.DHCPCheck
-  Proofs.DHCP Proofs.DHCPInv Proofs.DHCPReply Proofs.DHCPTie Proofs.DHCPRefuted.
+  Proofs.DHCP Proofs.DHCPInv Proofs.DHCPReply Proofs.DHCPTie Proofs.DHCPClauses Proofs.DHCPRefuted.
 Open Scope list_scope.
 Open Scope N_scope.
 
@@ -122,3 +122,67 @@ Example C12_expired_example :
   = [(false, Some ROffer); (false, Some RAck); (false, None); (true, Some RNak)].
 Proof. exact expired_example. Qed.
 Print Assumptions C12_expired_example.
+
+(* ---------------------------------------------------------------- *)
+(* "Conform to the transaction", clause by clause: every OFFER/ACK r to message m along every history. *)
+Theorem C12_clause_xid_echo : forall c h t m r, cfg_ok c ->
+  In t (trace c (init c) h) -> op_msg (t_op t) = Some m -> t_reply t = Some r -> is_lease_reply r = true ->
+  r_xid r = m_xid m.
+Proof. exact clause_xid. Qed.
+Print Assumptions C12_clause_xid_echo.
+Theorem C12_clause_chaddr_echo : forall c h t m r, cfg_ok c ->
+  In t (trace c (init c) h) -> op_msg (t_op t) = Some m -> t_reply t = Some r -> is_lease_reply r = true ->
+  r_chaddr r = m_chaddr m.
+Proof. exact clause_chaddr. Qed.
+Print Assumptions C12_clause_chaddr_echo.
+Theorem C12_clause_server_id : forall c h t m r, cfg_ok c ->
+  In t (trace c (init c) h) -> op_msg (t_op t) = Some m -> t_reply t = Some r -> is_lease_reply r = true ->
+  obeqb (opt 54 r) (ipb (c_hostip c)) = true.
+Proof. exact clause_server_id. Qed.
+Print Assumptions C12_clause_server_id.
+Theorem C12_clause_lease_time : forall c h t m r, cfg_ok c ->
+  In t (trace c (init c) h) -> op_msg (t_op t) = Some m -> t_reply t = Some r -> is_lease_reply r = true ->
+  obeqb (opt 51 r) (ipb 14400) = true.
+Proof. exact clause_lease_time. Qed.
+Print Assumptions C12_clause_lease_time.
+(* the option set by capture state: router, DNS, mask of the captured / non-captured subnet *)
+Theorem C12_clause_router_by_capture : forall c h t m r, cfg_ok c ->
+  In t (trace c (init c) h) -> op_msg (t_op t) = Some m -> t_reply t = Some r -> is_lease_reply r = true ->
+  obeqb (opt 3 r) (ipb (want_router c (client_net c (t_pre t) m))) = true.
+Proof. exact clause_router. Qed.
+Print Assumptions C12_clause_router_by_capture.
+Theorem C12_clause_dns_by_capture : forall c h t m r, cfg_ok c ->
+  In t (trace c (init c) h) -> op_msg (t_op t) = Some m -> t_reply t = Some r -> is_lease_reply r = true ->
+  obeqb (opt 6 r) (ipb (want_dns c (client_net c (t_pre t) m))) = true.
+Proof. exact clause_dns. Qed.
+Print Assumptions C12_clause_dns_by_capture.
+Theorem C12_clause_mask_by_capture : forall c h t m r, cfg_ok c ->
+  In t (trace c (init c) h) -> op_msg (t_op t) = Some m -> t_reply t = Some r -> is_lease_reply r = true ->
+  obeqb (opt 1 r) (ipb (pmask (want_bits c (client_net c (t_pre t) m)))) = true.
+Proof. exact clause_mask. Qed.
+Print Assumptions C12_clause_mask_by_capture.
+Theorem C12_captured_options_differ : forall c, c_hostip c <> c_routerip c ->
+  want_router c true <> want_router c false /\ (c_dns c <> cloudflare_family1 -> want_dns c true <> want_dns c false).
+Proof. exact captured_differs. Qed.
+Print Assumptions C12_captured_options_differ.
+(* message type per kind of message (from any state): DISCOVER -> OFFER or silence; REQUEST -> ACK, NAK or
+   silence; DECLINE, RELEASE -> silence; option 53 of the reply builder carries that type *)
+Theorem C12_clause_message_type : forall c s h t r,
+  In t (trace c s h) -> t_reply t = Some r ->
+  match t_op t with
+  | ODiscover _ _ => r_type r = ROffer
+  | ORequest _ _ => r_type r = RAck \/ r_type r = RNak
+  | _ => False
+  end.
+Proof. exact type_per_message. Qed.
+Print Assumptions C12_clause_message_type.
+Theorem C12_clause_type_option : forall c t m x b,
+  opt 53 (mk_reply c t m x b) = Some [match t with ROffer => 2 | RAck => 5 | RNak => 6 end].
+Proof. exact type_option. Qed.
+Print Assumptions C12_clause_type_option.
+(* broadcast flag / destination (from any state) *)
+Theorem C12_clause_destination : forall c s h t m r,
+  In t (trace c s h) -> op_msg (t_op t) = Some m -> t_reply t = Some r ->
+  (r_dstmac r, r_dstip r) = if (m_src m =? 0) || m_bflag m then (mac_bcast, ip_bcast) else (m_chaddr m, m_src m).
+Proof. exact reply_destination. Qed.
+Print Assumptions C12_clause_destination.
